@@ -171,3 +171,17 @@ package expressions
 //@   loop 1 step imp(old(tree.expression[tree.charPos]) != '$' && old(tree.expression[tree.charPos]) != '~' && !(old(tree.expression[tree.charPos]) == '(' && qEnd == ')') && len(value) == old(len(value)) + 1, value[len(value)-1] == ite(old(escaped), $unesc(old(tree.expression[tree.charPos])), old(tree.expression[tree.charPos])))
 //@   loop 1 step imp(old(tree.expression[tree.charPos]) != '$' && old(tree.expression[tree.charPos]) != '~' && !(old(tree.expression[tree.charPos]) == '(' && qEnd == ')'), forall(j, 0, old(len(value)), value[j] == old(value[j])))
 //@   loop 1 step imp(old(tree.expression[tree.charPos]) != '$' && old(tree.expression[tree.charPos]) != '~' && !(old(tree.expression[tree.charPos]) == '(' && qEnd == ')') && (qEnd == '"' || qEnd == ')'), old(escaped) || old(tree.expression[tree.charPos]) != qEnd)
+
+// ---- C06: folding the AST ---------------------------------------------------------------------------------
+// foldAst replaces the three nodes (left operand, operator at astPos, right operand) by the result node:
+// everything left of them stays, the result takes the place of the left operand, everything right of
+// them moves up by two - nothing else changes (this is the splice the precedence argument rests on).
+//@ func (*ParserT).foldAst [C06]
+//@   check index, slice
+//@   requires tree != nil
+//@   inst 2
+//@   ensures (result == nil) == old(0 < tree.astPos && tree.astPos < len(tree.ast) - 1)
+//@   ensures imp(result == nil, len(tree.ast) == old(len(tree.ast)) - 2 && tree.astPos == old(tree.astPos))
+//@   ensures imp(result == nil, forall(k, 0, tree.astPos - 1, tree.ast[k] == old(tree.ast[k])))
+//@   ensures imp(result == nil, tree.ast[tree.astPos - 1] == new)
+//@   ensures imp(result == nil, forall(k, tree.astPos, len(tree.ast), tree.ast[k] == old(tree.ast[k + 2])))
